@@ -625,7 +625,7 @@ class DFunction(Saveable, DataSaveable):
             if t.atype == "complete":
 
                 Y = t.length*numpy.fft.fftshift(numpy.fft.ifft(
-                numpy.fft.fftshift(y)))*t.step
+                numpy.fft.ifftshift(y)))*t.step
 
             elif t.atype == "upper-half":
 
@@ -651,7 +651,7 @@ class DFunction(Saveable, DataSaveable):
             t = w.get_TimeAxis()
 
             Y = w.length*numpy.fft.fftshift(numpy.fft.ifft(
-                numpy.fft.fftshift(y)))*w.step/(numpy.pi*2.0)
+                numpy.fft.ifftshift(y)))*w.step/(numpy.pi*2.0)
 
             if w.atype == "complete":
 
@@ -710,7 +710,7 @@ class DFunction(Saveable, DataSaveable):
                 #Y = t.length*numpy.fft.fftshift(numpy.fft.ifft(
                 #    numpy.fft.fftshift(y)))*t.step
                 Y = numpy.fft.fftshift(numpy.fft.fft(
-                    numpy.fft.fftshift(y)))*t.step
+                    numpy.fft.ifftshift(y)))*t.step
 
             elif t.atype == "upper-half":
 
@@ -736,7 +736,7 @@ class DFunction(Saveable, DataSaveable):
             t = w.get_TimeAxis()
 
             Y = numpy.fft.fftshift(numpy.fft.fft(
-            numpy.fft.fftshift(y)))*w.step/(numpy.pi*2.0)
+            numpy.fft.ifftshift(y)))*w.step/(numpy.pi*2.0)
 
             if t.atype == "complete":
 
